@@ -449,8 +449,47 @@ def check(prog, rep):
                    f"PARSE {ca.lookup} ({qa if qa is None else round(qa, 4)}) -> {cb.lookup} ({qb if qb is None else round(qb, 4)}): "
                    f"shift {None if qa is None or qb is None else round(qb - qa, 4)}, required {shift:+d}", "pdb2pqr/dat/PARSE.DAT")
     co = prog.func("main.py", "check_options").node
+    wco = f"pdb2pqr/main.py:{co.lineno} (check_options)"
+    try:
+        verdicts = parse_only_on_models(prog)
+    except AnalysisError:
+        verdicts = None
     for opt in ("neutraln", "neutralc"):
+        if verdicts is not None:
+            bad = [v for v in verdicts if v[0] == opt]
+            r5.add(f"parse-only|{opt}", not bad, f"check_options on {MODEL_NAMESPACES} model namespaces rejects --{opt} exactly when the force field is not "
+                   f"PARSE (any letter case)" + (f"; wrong for {bad[0][1]}" if bad else ""), wco)
+            continue
         tests = [s for s in co.body if isinstance(s, ast.If) and f"args.{opt}" in U(s.test)]
         ok = bool(tests) and "parse" in U(tests[0].test) and any(isinstance(x, ast.Raise) for x in tests[0].body)
-        r5.add(f"parse-only|{opt}", ok, f"check_options rejects --{opt} unless the force field is PARSE",
-               f"pdb2pqr/main.py:{co.lineno} (check_options)")
+        r5.add(f"parse-only|{opt}", ok, f"check_options rejects --{opt} unless the force field is PARSE", wco)
+
+
+MODEL_NAMESPACES = 3 * 5 * 3
+
+
+def parse_only_on_models(prog):
+    """check_options evaluated on model namespaces: one neutral-terminus option set at a time (and none), every force-field spelling class,
+    three pH values.  -> [(option, description of the namespace)] where acceptance is wrong."""
+    from ..guards import Flow, Obj
+    from ..objinterp import ObjRunner
+    wrong = []
+    for nn, nc in ((True, False), (False, True), (False, False)):
+        for ff in (None, "parse", "PARSE", "amber", "CHARMM"):
+            for ph in (0.0, 7.0, 14.0):
+                run = ObjRunner(prog, "main.py")
+                args = Obj({"__class__": "<namespace>", "ph": ph, "neutraln": nn, "neutralc": nc, "ff": ff})
+                try:
+                    run.call_function("main.py", "check_options", args)
+                    raised = False
+                except Flow as fl:
+                    if fl.kind != "raise":
+                        raise AnalysisError("check_options: stray control flow") from fl
+                    raised = True
+                want = (nn or nc) and (ff is None or ff.lower() != "parse")
+                if raised != want:
+                    what = f"neutraln={nn} neutralc={nc} ff={ff!r} ph={ph}: {'rejected' if raised else 'accepted'}"
+                    wrong.append(("neutraln" if nn else "neutralc" if nc else "neutraln", what))
+                    if not (nn or nc):
+                        wrong.append(("neutralc", what))
+    return wrong
